@@ -30,7 +30,7 @@ def product_job(prop, name, groups, sc, budget, bound, family=None, mandatory=Tr
               'xcheck_every': xcheck_every, 'validate_every': validate_every, 'space': space_of(sc)}
     if extra:
         params.update(extra)
-        if extra.get('space_mul'): params['space'] *= extra['space_mul']
+        if extra.get('space_mul') and extra['space_mul'] != 1: params['space'] = None
     return Job(name, fn, params, budget, bound, family=family, mandatory=mandatory, groups=groups, expect_violation=expect_violation)
 
 
@@ -113,4 +113,28 @@ def startline_families(P, G, tier, which=('req', 'resp'), scale=0, **kw):
                                   (b'HTTP/1.1 200', b'', q(7, 10), 'reason+'), (b'HTTP/1.1  404  ', b'\n\n', q(5, 7), 'reason-ms')):
             J += deepen(P, G, 'statusline-' + nm, lambda n, pre=pre, suf=suf: sc('resp', n, prefix=pre, suffix=suf, api='cfg', fl=fl, cap=1),
                         range(1, top + 1), bud, f'response {pre!r} + ' + '{n} symbolic bytes + ' + f'{suf!r} (multi-space option symbolic)', 4, **kw)
+    return J
+
+
+SLIDE_POOL = [
+    ('req-post', 'req', b'POST /a/b?c=d HTTP/1.1\r\nHost: ex.org\r\nX-A:  v1 \r\nB:\r\n\r\n', 'req'),
+    ('resp-fold', 'resp', b'HTTP/1.0 404 Not Found\r\nA: b\r\nLong-Name: val\r\n\tcont\r\nZ: 9\r\n\r\n', 'resp'),
+    ('resp-ignore', 'resp', b'HTTP/1.1 200 OK\r\nbad line\r\nK : v\r\nOk: 1\r\n\r\n', 'resp'),
+    ('req-lf', 'req', b'\r\n\nGET /x HTTP/1.0\nA:b\nC: d\n\n', 'req'),
+]
+
+
+def sliding_families(P, G, tier, default_flags=False, step=1, **kw):
+    """a short symbolic window slid over every offset of a few realistic multi-header messages (all options of the message
+    kind symbolic unless default_flags): every byte value at every position of a long message, in its real context"""
+    J = []
+    w = T(tier, 3, 4); bud = T(tier, 60, 300)
+    for nm, kind, msg, _ in SLIDE_POOL:
+        fl = F0 if default_flags else ([f for f in flags(multi_sp_req='sym', sp_before_first='sym', ignore_req='sym')] if kind == 'req'
+                                       else [f for f in flags(sp_after_name='sym', obs_fold='sym', multi_sp_resp='sym', sp_before_first='sym', ignore_resp='sym')])
+        for off in range(0, len(msg) - w + 1, step):
+            jb = product_job(P, f'slide-{nm}-o{off}', G, sc(kind, w, prefix=msg[:off], suffix=msg[off + w:], api='cfg', fl=fl, cap=3), bud,
+                             f'{kind} message {nm} ({len(msg)} bytes) with bytes {off}..{off + w - 1} symbolic' + ('' if default_flags else ', options symbolic'),
+                             family=f'slide-{nm}', mandatory=False, validate_every=60, **kw)
+            jb.small = True; J.append(jb)
     return J
